@@ -11,6 +11,7 @@ package respondent
 //@   lock Mutex level 20
 //@   guarded_by Mutex: closed ttl sendQLen recvQLen sizeQ recvQ contexts
 //@   immutable: defCtx closeQ
+//@   never_closed: recvQ
 //@   elem_invariant recvQ: !shared(elem.m) && elem.m != nil && elem.p != nil
 //@
 //@ struct context
@@ -88,3 +89,6 @@ package respondent
 //@
 //@ func (*pipe).receiver
 //@   before go:close#1 assert m == nil || selidx == 2
+//@
+//@ func (*context).RecvMsg
+//@   ensures isnil(result1) ==> result0 != nil
